@@ -89,6 +89,12 @@ DivMod10(lm, i, r) == IF i = 0 THEN <<<<>>, r>>
                            <<Append(rest[1], cur \div 10), rest[2]>>
 \* Append builds least-significant first because the recursion returns from the low end: quotient[j] belongs to limb j
 Div10(lm) == LET d == DivMod10(lm, Len(lm), 0) IN [q |-> Strip(d[1]), r |-> d[2]]
+\* division by a small number (< 2^24, so that the partial remainders fit TLC's integers)
+RECURSIVE DivModSmall(_, _, _, _)
+DivModSmall(lm, i, r, d) == IF i = 0 THEN <<<<>>, r>>
+                            ELSE LET cur == r * 128 + lm[i]  rest == DivModSmall(lm, i - 1, cur % d, d) IN
+                                 <<Append(rest[1], cur \div d), rest[2]>>
+DivSmall(lm, d) == LET x == DivModSmall(lm, Len(lm), 0, d) IN [q |-> Strip(x[1]), r |-> x[2]]
 RECURSIVE Digits(_)
 Digits(lm) == IF lm = <<>> THEN <<>> ELSE LET d == Div10(lm) IN Append(Digits(d.q), 48 + d.r)
 DecText(n) == (IF n.neg /\ n.mag # <<>> THEN <<45>> ELSE <<>>) \o (IF n.mag = <<>> THEN <<48>> ELSE Digits(n.mag))
